@@ -116,6 +116,11 @@ package config
 //@   ensures fs != nil && os.Getenv("GOGREEMENT_ENV_ONLY") == "" ==> (forall x string :: contains(result.ExcludeChecks, x) <==> listHas(flagTextOf(fs, "exclude-checks"), true, x))
 //@   ensures fs != nil && os.Getenv("GOGREEMENT_ENV_ONLY") != "" ==> result.ScanTests == (envSet("GOGREEMENT_SCAN_TESTS") && boolSpelling(envVal("GOGREEMENT_SCAN_TESTS")))
 
+// the environment enters only as the flags' defaults: each flag is defined under its documented name with the value
+// FromEnv() computed for it
 //@ func CreateFlagSet
-//@   props C18 C10
+//@   props C18 C08 C14 C10
 //@   ensures result != nil
+//@   at call FlagSet.Bool#1 assert $arg0 == "scan-tests" && $arg1 == defaultConfig.ScanTests
+//@   at call FlagSet.String#1 assert $arg0 == "exclude-paths" && $arg1 == strings.Join(defaultConfig.ExcludePaths, ",")
+//@   at call FlagSet.String#2 assert $arg0 == "exclude-checks" && $arg1 == strings.Join(defaultConfig.ExcludeChecks, ",")
